@@ -24,26 +24,31 @@ META = {
                         "silent about them; stated domain restriction agg_kwfree)"],
     },
     "C17": {
-        "level": "other",
-        "level_text": "Deductive proof that the real transform_calls.visit_Call returns "
-        "erase_method_form(node) for every tree; idempotence proved as a lemma by structural "
-        "induction over all 64 node classes; the 'no method-form call remains' lemma is proved for "
-        "every class except the Call case (left undecided by the solver, reported as such) and is "
-        "therefore only checked bounded; semantic equality checked bounded on ~900 mixed-form "
-        "queries x 4 data sets.",
+        "level": "proof",
+        "level_text": "Deductive proof, for every tree of every depth: the real "
+        "change_extension_functions_to_calls / transform_calls.visit_Call return "
+        "erase_method_form(node) (every seq.Op(args) with Op in the name list becomes Op(seq, args), "
+        "everything else rebuilt unchanged); lemmas by structural induction over all 64 node classes: "
+        "the result contains no remaining method-form operator call (Call case split by the class of "
+        "its func), and erase_method_form is the identity on trees without method-form calls "
+        "(idempotence). 'Evaluates to the same value' holds by the definition of the reference "
+        "semantics (method form IS the operator applied to the receiver) and is additionally checked "
+        "bounded on ~900 mixed-form queries x 4 data sets.",
         "level_note": "Trusted: NodeTransformer model, visitor induction, z3, own VC generator. "
-        "Method-form operator calls with keyword arguments are outside the stated domain.",
-        "technique": "contract-based deductive verification (VCs from real source + lemmas by structural induction, z3); bounded contract check as labelled stand-in",
+        "Method-form operator calls with keyword arguments are outside the stated domain. The "
+        "semantic clause is not a separate mechanised theorem: the reference semantics defines both "
+        "forms by the same equation.",
+        "technique": "contract-based deductive verification (VCs from real source + lemmas by structural induction, z3); bounded contract check as labelled cross-check",
         "p_keys": True,
         "explanation": "Contract-based deductive verification: transform_calls.visit_Call (nested in "
-        "change_extension_functions_to_calls) is verified against the recursive spec function "
-        "erase_method_form under the NodeTransformer library model and the visitor induction "
-        "hypothesis; `contains no remaining method-form operator call` and idempotence are lemmas "
-        "over the spec function proved by structural induction (one obligation per ast node class); "
-        "semantic equality is immediate from the definition of method form in the reference "
-        "semantics and is additionally checked bounded.",
+        "change_extension_functions_to_calls) and the outer function are verified against the "
+        "recursive spec function erase_method_form under the NodeTransformer library model and the "
+        "visitor induction hypothesis; `contains no remaining method-form operator call` and "
+        "idempotence are lemmas over the spec function proved by structural induction (one "
+        "obligation per ast node class).",
         "assumptions": ["method-form operator calls carry no keyword arguments (stated domain "
-                        "restriction opcall_kwfree; the code drops them)"],
+                        "restriction opcall_kwfree; the code drops them)",
+                        "sem(seq.Op(args)) == sem(Op(seq, args)) by definition of the reference semantics"],
     },
 }
 
